@@ -174,6 +174,14 @@ def headLen (s : Str) : Option Nat :=
 def scanIdent (s : Str) : Option (Str × Str) :=
   (headLen s).map fun n => scanCont n s
 
+/-- `r` begins with something the `*` loop of `IDENTIFIER` might consume: an identifier
+    character, or a backslash (the start of a possible escape).  Text that does not satisfy this
+    cannot extend an identifier placed in front of it. -/
+def continuesIdent (r : Str) : Bool :=
+  match r with
+  | [] => false
+  | c :: _ => identContChar c || c == 92
+
 /-- The id / class tokens `\#IDENTIFIER`, `\.IDENTIFIER` (`p` = 35 or 46): `(matched, rest)`. -/
 def scanPrefixed (p : Nat) (s : Str) : Option (Str × Str) :=
   match s with
